@@ -253,6 +253,16 @@ def _sibling_set_status(sd: ast.AST, tree_p: str, deme_v: str, selfn: str, want_
 
     from ..core import _Subst
 
+    # `S = <level>; if <flag>: S = [s for s in S if c]`  ==  [s for s in <level> if c or not <flag>]
+    if isinstance(sd, ast.Name) and defs and len(defs.get(sd.id, [])) == 2:
+        d0, d1 = defs[sd.id]
+        base, comp = (d0, d1) if isinstance(d1, ast.ListComp) else (d1, d0)
+        if isinstance(comp, ast.ListComp) and not isinstance(base, ast.ListComp) and len(comp.generators) == 1 and isinstance(comp.generators[0].iter, ast.Name) and comp.generators[0].iter.id == sd.id and comp.generators[0].ifs and getattr(comp, "_guard", None) is not None:
+            g0 = comp.generators[0]
+            cond_ = ast.BoolOp(op=ast.Or(), values=[g0.ifs[0] if len(g0.ifs) == 1 else ast.BoolOp(op=ast.And(), values=list(g0.ifs)), ast.UnaryOp(op=ast.Not(), operand=comp._guard)])
+            sd = ast.ListComp(elt=comp.elt, generators=[ast.comprehension(target=g0.target, iter=base, ifs=[cond_], is_async=0)])
+            ast.fix_missing_locations(sd)
+            defs = {k: v for k, v in defs.items() if k != comp.generators[0].iter.id}
     e = _Subst(defs, 4).visit(copy.deepcopy(sd)) if defs else sd
     while isinstance(e, ast.Call) and norm(e.func) in ("list", "tuple") and len(e.args) == 1:
         e = e.args[0]
@@ -279,6 +289,11 @@ def _sibling_set_status(sd: ast.AST, tree_p: str, deme_v: str, selfn: str, want_
     want = parse_cond("S.is_active" if want_filter == "active" else f"S.is_active or not {selfn}.check_only_active")
     if not conds:
         return OK, "every deme of the target level (a superset of the configured siblings)"
+    # `sibling in tree.active_demes`: the tree's listings hold (level number, deme) PAIRS, a deme is never an element of them
+    for c_ in conds:
+        for x in ast.walk(c_):
+            if isinstance(x, ast.Compare) and len(x.ops) == 1 and isinstance(x.ops[0], (ast.In, ast.NotIn)) and isinstance(x.left, ast.Name) and x.left.id == var and isinstance(x.comparators[0], ast.Attribute) and norm(x.comparators[0].value) == tree_p and x.comparators[0].attr in ("active_demes", "all_demes", "active_non_leaves"):
+                return VIOLATION, f"the siblings are selected by `{norm(x)}`: {tree_p}.{x.comparators[0].attr} lists (level number, deme) pairs, so a deme is never `in` it - the comparison list is empty and no candidate is compared with any centroid"
     from ..normalize import _subst
 
     actual = ast.BoolOp(op=ast.And(), values=[_subst(c, {var: ast.Name(id="S", ctx=ast.Load())}) for c in conds]) if len(conds) > 1 else _subst(conds[0], {var: ast.Name(id="S", ctx=ast.Load())})
@@ -302,6 +317,44 @@ def _sibling_set_status(sd: ast.AST, tree_p: str, deme_v: str, selfn: str, want_
     return INCONCLUSIVE, f"cannot decide whether the sibling filter `{' and '.join(norm(c) for c in conds)}` keeps every configured sibling"
 
 
+def _inline_predicate_status(comp: ast.ListComp, sib: str, selfn: str, threshold_kind: str, nbc_thr: str):
+    """The keep-condition of `[ind for ind in cur if <cond>]` read as a distance predicate: (status, why)."""
+    ind = comp.generators[0].target.id if isinstance(comp.generators[0].target, ast.Name) else "?"
+    conds = list(comp.generators[0].ifs)
+
+    def positive(e, neg=False):
+        """conjuncts of e in negation normal form (only and / not / or-under-not are opened)"""
+        if isinstance(e, ast.UnaryOp) and isinstance(e.op, ast.Not):
+            return positive(e.operand, not neg)
+        if isinstance(e, ast.BoolOp) and ((isinstance(e.op, ast.And) and not neg) or (isinstance(e.op, ast.Or) and neg)):
+            return [y for v in e.values for y in positive(v, neg)]
+        if neg and isinstance(e, ast.Compare) and len(e.ops) == 1:
+            inv = {ast.Lt: ast.GtE, ast.LtE: ast.Gt, ast.Gt: ast.LtE, ast.GtE: ast.Lt, ast.Is: ast.IsNot, ast.IsNot: ast.Is, ast.Eq: ast.NotEq, ast.NotEq: ast.Eq}.get(type(e.ops[0]))
+            if inv is not None:
+                return [ast.Compare(left=e.left, ops=[inv()], comparators=e.comparators)]
+        return [ast.UnaryOp(op=ast.Not(), operand=e)] if neg else [e]
+
+    conj = [y for c in conds for y in positive(c)]
+    dist = [c for c in conj if isinstance(c, ast.Compare) and len(c.ops) == 1 and any(isinstance(x, ast.Call) and norm(x.func).split(".")[-1] == "norm" for x in ast.walk(c))]
+    if len(dist) != 1:
+        return INCONCLUSIVE, "no single distance comparison in the keep-condition"
+    c = dist[0]
+    l, r, op = c.left, c.comparators[0], type(c.ops[0])
+    if not (isinstance(l, ast.Call) and norm(l.func).split(".")[-1] == "norm"):
+        l, r, op = r, l, {ast.Lt: ast.Gt, ast.Gt: ast.Lt, ast.LtE: ast.GtE, ast.GtE: ast.LtE}.get(op, op)
+    if not (isinstance(l, ast.Call) and norm(l.func).split(".")[-1] == "norm" and l.args and canon(l.args[0]) in (f"{ind}.genome-{sib}.centroid", f"{sib}.centroid-{ind}.genome")):
+        return INCONCLUSIVE, f"the compared quantity `{norm(l)[:60]}` is not the norm of (candidate genome - sibling centroid)"
+    thr = canon(r)
+    thr_ok = thr == f"{selfn}.min_distance" if threshold_kind == "abs" else thr in (f"{selfn}.min_distance_factor*{nbc_thr}", f"{nbc_thr}*{selfn}.min_distance_factor")
+    if not thr_ok:
+        return INCONCLUSIVE, f"threshold `{norm(r)[:60]}` not recognised"
+    if op is ast.Gt:
+        return OK, ""
+    if op is ast.GtE:
+        return VIOLATION, f"the keep-condition amounts to `{norm(l)[:50]} >= {norm(r)[:40]}` (written as `not ... <`): a candidate EXACTLY at the threshold distance is accepted, the property demands strictly farther"
+    return VIOLATION, f"the keep-condition `{norm(c)[:80]}` keeps candidates that are not farther than the threshold"
+
+
 def _far_enough_filter(ctx: Ctx, cls_name: str, helper_name: str, want_filter: str, threshold_kind: str):
     obs = []
     ci = ctx.prog.cls(cls_name)
@@ -310,6 +363,23 @@ def _far_enough_filter(ctx: Ctx, cls_name: str, helper_name: str, want_filter: s
         raise AnalysisError(f"{cls_name}.__call__ vanished")
     selfn = f.self_name()
     cand_p, tree_p = f.params()[1], f.params()[2]
+    # the distance predicate may have been renamed / inverted (`_is_too_close`, used as `not self._is_too_close(..)`): take the
+    # one private method of the class that __call__ applies to (candidate, <sibling>.centroid)
+    helper_inverted = False
+    if helper_name not in ci.methods:
+        cands_h = {}
+        from ..core import parents_map as _pm
+
+        par_h = _pm(f.node)
+        for c in body_walk(f.node):
+            if isinstance(c, ast.Call) and isinstance(c.func, ast.Attribute) and is_self_attr(c.func, None, selfn) and c.func.attr in ci.methods and any(isinstance(a, ast.Attribute) and a.attr == "centroid" for a in c.args):
+                cands_h.setdefault(c.func.attr, []).append(isinstance(par_h.get(id(c)), ast.UnaryOp) and isinstance(par_h[id(c)].op, ast.Not))
+        if len(cands_h) == 1:
+            helper_name, negs = next(iter(cands_h.items()))
+            if all(negs):
+                helper_inverted = True
+            elif any(negs):
+                return [ctx.ob("R09.3", f, f.node, status=INCONCLUSIVE, detail=f"{cls_name}: `{helper_name}` is used both plainly and negated", construct="helper")]
     # outer loop over parents
     outer = [n for n in body_walk(f.node) if isinstance(n, ast.For) and norm(n.iter) in (f"{cand_p}.keys()", cand_p, f"list({cand_p}.keys())", f"list({cand_p})")]
     if len(outer) > 1:
@@ -323,6 +393,12 @@ def _far_enough_filter(ctx: Ctx, cls_name: str, helper_name: str, want_filter: s
         if isinstance(n, ast.Assign) and len(n.targets) == 1 and isinstance(n.targets[0], ast.Name):
             body_defs.setdefault(n.targets[0].id, []).append(n)
     vdefs = {k: [d.value for d in v] for k, v in body_defs.items()}
+    # an assignment made under `if <flag>:` remembers its guard (used for conditionally narrowed sibling lists)
+    for n in ast.walk(outer[0]):
+        if isinstance(n, ast.If) and not n.orelse:
+            for b in n.body:
+                if isinstance(b, ast.Assign) and isinstance(b.value, ast.ListComp):
+                    b.value._guard = n.test
     cand_list = f"{cand_p}[{deme_v}].individuals"
 
     def is_helper_call(c):
@@ -366,6 +442,7 @@ def _far_enough_filter(ctx: Ctx, cls_name: str, helper_name: str, want_filter: s
     # sibling loop
     sib_loops = [n for n in ast.walk(outer[0]) if isinstance(n, ast.For) and n is not outer[0]]
     hits = 0
+    inline_verdicts = []
     for sl in sib_loops:
         if not isinstance(sl.target, ast.Name):
             continue
@@ -373,6 +450,11 @@ def _far_enough_filter(ctx: Ctx, cls_name: str, helper_name: str, want_filter: s
         # re-filter statements in the sibling loop body
         refilters = [n for n in ast.walk(sl) if isinstance(n, ast.Assign) and len(n.targets) == 1 and isinstance(n.targets[0], ast.Name) and isinstance(n.value, ast.ListComp) and any(is_helper_call(x) for x in ast.walk(n.value))]
         if not refilters:
+            # the predicate written out inside the comprehension (a renamed helper that the normaliser inlined)
+            inl = [n for n in ast.walk(sl) if isinstance(n, ast.Assign) and len(n.targets) == 1 and isinstance(n.targets[0], ast.Name) and isinstance(n.value, ast.ListComp) and len(n.value.generators) == 1 and norm(n.value.generators[0].iter) == n.targets[0].id and any(isinstance(x, ast.Attribute) and x.attr == "centroid" and isinstance(x.value, ast.Name) and x.value.id == sl.target.id for c_ in n.value.generators[0].ifs for x in ast.walk(c_))]
+            if len(inl) == 1:
+                st_i, why_i = _inline_predicate_status(inl[0].value, sl.target.id, selfn, threshold_kind, f"{cand_p}[{deme_v}].features.nbc_mean_distance")
+                inline_verdicts.append((inl[0], st_i, why_i))
             continue
         hits += 1
         # `for sib in S: if c: <re-filter>` is the loop over [sib for sib in S if c]
@@ -418,6 +500,9 @@ def _far_enough_filter(ctx: Ctx, cls_name: str, helper_name: str, want_filter: s
                 obs.append(ctx.ob("R09.3", f, rf, status=VIOLATION if any(is_helper_call(v) for v in g.ifs[0].values) else INCONCLUSIVE, detail=f"{cls_name}: a candidate is kept if the distance test OR something else holds: `{norm(g.ifs[0])}`", construct="refilter-pred"))
                 continue
             conj = _conjuncts(g.ifs)
+            if helper_inverted:
+                # `not self._is_too_close(..)` is the positive application of the (inverted) predicate
+                conj = [c.operand if (isinstance(c, ast.UnaryOp) and isinstance(c.op, ast.Not) and is_helper_call(c.operand)) else c for c in conj]
             calls = [c for c in conj if is_helper_call(c)]
             others = [c for c in conj if c not in calls]
             if len(calls) != 1:
@@ -465,6 +550,11 @@ def _far_enough_filter(ctx: Ctx, cls_name: str, helper_name: str, want_filter: s
             obs.append(ctx.ob("R09.3", f, conts[0], status=INCONCLUSIVE, detail=f"{cls_name}: some siblings may be skipped in the distance loop", construct="sibling-skip"))
         for gd in guards:
             obs.append(ctx.ob("R09.3", f, gd, status=INCONCLUSIVE, detail=f"{cls_name}: siblings are compared only under `{norm(gd.test)}`", construct="sibling-skip"))
+    if hits == 0 and len(inline_verdicts) == 1 and inline_verdicts[0][1] in (OK, VIOLATION) and helper_name not in ci.methods:
+        n_, st_i, why_i = inline_verdicts[0]
+        obs.append(ctx.ob("R09.3", f, n_, status=st_i, detail=f"{cls_name}: a candidate is kept iff it is strictly farther than the threshold from the sibling's centroid (predicate written inline)" if st_i == OK else f"{cls_name}: {why_i}", construct="predicate"))
+        if st_i == VIOLATION:
+            return obs
     if hits == 0:
         # lazily chained generator expressions: `cur = (i for i in cur if pred(i, sib.centroid))` inside the sibling loop and
         # `list(cur)` after it. A generator evaluates its condition when it is consumed, i.e. after the loop has ended, when
@@ -527,15 +617,49 @@ def _far_enough_filter(ctx: Ctx, cls_name: str, helper_name: str, want_filter: s
     hs = h.self_name()
     hdefs = local_defs(h)
     rets = [r for r in body_walk(h.node) if isinstance(r, ast.Return)]
+    # a SQUARED length (dot(d, d), sum(d ** 2), d @ d) compared with the threshold itself: the filter then enforces the square
+    # root of the configured distance
+    import copy as _cp
+
+    from ..core import _Subst as _Sb
+
+    for r in rets:
+        rv0 = _Sb(hdefs, 4).visit(_cp.deepcopy(r.value)) if r.value is not None else None
+        while isinstance(rv0, ast.Call) and norm(rv0.func) in ("bool", "float") and len(rv0.args) == 1:
+            rv0 = rv0.args[0]
+        arms_ = [rv0]
+        while any(isinstance(x, ast.IfExp) for x in arms_):
+            arms_ = [y for x in arms_ for y in ([x.body, x.orelse] if isinstance(x, ast.IfExp) else [x])]
+        for rv0 in arms_:
+          if isinstance(rv0, ast.Compare) and len(rv0.ops) == 1:
+              for a_, b_ in ((rv0.left, rv0.comparators[0]), (rv0.comparators[0], rv0.left)):
+                  core = a_
+                  while isinstance(core, ast.Call) and norm(core.func) in ("float", "np.float64") and len(core.args) == 1:
+                      core = core.args[0]
+                  squared = (isinstance(core, ast.Call) and norm(core.func).split(".")[-1] in ("dot", "inner", "vdot") and len(core.args) == 2 and canon(core.args[0]) == canon(core.args[1])) or (isinstance(core, ast.BinOp) and isinstance(core.op, ast.MatMult) and canon(core.left) == canon(core.right)) or (isinstance(core, ast.Call) and norm(core.func).split(".")[-1] == "sum" and any(isinstance(x, ast.BinOp) and ((isinstance(x.op, ast.Pow) and isinstance(x.right, ast.Constant) and x.right.value == 2) or (isinstance(x.op, ast.Mult) and canon(x.left) == canon(x.right))) for x in ast.walk(core)))
+                  thr_sq = any(isinstance(x, ast.BinOp) and ((isinstance(x.op, ast.Pow) and isinstance(x.right, ast.Constant) and x.right.value == 2) or (isinstance(x.op, ast.Mult) and canon(x.left) == canon(x.right))) for x in ast.walk(b_)) or any(isinstance(x, ast.Call) and norm(x.func).split(".")[-1] == "square" for x in ast.walk(b_))
+                  if squared and not thr_sq and any(is_self_attr(x, None, hs) and x.attr.startswith("min_distance") for x in ast.walk(b_)):
+                      obs.append(ctx.ob("R09.3", h, r, status=VIOLATION, detail=f"{cls_name}: `{norm(r.value)[:90]}` compares the SQUARED distance with the threshold itself: candidates are accepted as soon as they are farther than the square root of the configured distance (identical only for a threshold of 1)", construct="predicate"))
+                      return obs
     st = INCONCLUSIVE
     why = "predicate is not recognisable as `norm(candidate - centroid) > threshold`"
     rv = None
+    if len(rets) > 1:
+        # `if centroid is None: return <constant>` in front of the comparison is the old `centroid is not None and ..` guard
+        from ..core import parents_map as _pm2
+
+        par2 = _pm2(h.node)
+        main_r = [r for r in rets if not (isinstance(r.value, ast.Constant) and isinstance(par2.get(id(r)), ast.If) and "None" in norm(par2[id(r)].test))]
+        if len(main_r) == 1:
+            rets = main_r
     if len(rets) == 1 and rets[0].value is not None:
         import copy
 
         from ..core import _Subst
 
         rv = _Subst(hdefs, 4).visit(copy.deepcopy(rets[0].value))
+        if helper_inverted:
+            rv = ast.UnaryOp(op=ast.Not(), operand=rv)
         if isinstance(rv, ast.UnaryOp) and isinstance(rv.op, ast.Not) and isinstance(rv.operand, ast.Compare) and len(rv.operand.ops) == 1:
             inv = {ast.Lt: ast.GtE, ast.LtE: ast.Gt, ast.Gt: ast.LtE, ast.GtE: ast.Lt}
             o = type(rv.operand.ops[0])
